@@ -881,4 +881,107 @@ Section AllocRandom.
     - destruct (alloc_failure_recoverable_random _ _ _ _ _ _ _ _ _ _ _ Hinv H1 Hok) as (_ & _ & _ & _ & M1 & I1 & g_r & Hr & _).
       destruct (IH _ _ _ I1 Hr) as (I2 & M2 & R2). split; [exact I2|]. split; [eapply mono_trans; eauto|exact R2].
   Qed.
+
+  (* ---------- the failing run is a prefix of the never-failing run (random sources included) ---------- *)
+  Lemma goA_ok_indep sigma fu : forall l (g0 : gstate) e0 k0 k0' ws g1 e1 k1,
+    goA F plan sigma fu l g0 e0 k0 = (AOk ws, g1, e1, k1) -> exists k1', goA F plan nf fu l g0 e0 k0' = (AOk ws, g1, e1, k1').
+  Proof.
+    induction l as [|x l IHl]; intros g0 e0 k0 k0' ws g1 e1 k1 Hg; [simpl in *; injection Hg as <- <- <- <-; eauto|].
+    cbn [goA] in *. fold (goA F plan sigma fu) in Hg. fold (goA F plan nf fu).
+    destruct (fwdA F plan sigma fu g0 e0 k0 x) as [[[rx gx] ex] kx] eqn:Ex. destruct rx as [vx| |]; try discriminate.
+    destruct (ok_indep _ _ _ _ _ k0' _ _ _ _ _ Ex) as (kx' & ->).
+    destruct (goA F plan sigma fu l gx ex kx) as [[[rl gl] el] kl] eqn:El. destruct rl as [vl| |]; try discriminate.
+    destruct (IHl _ _ _ kx' _ _ _ _ El) as (kl' & ->). injection Hg as <- <- <- <-. eauto.
+  Qed.
+
+  Lemma exec_prefix sigma (h : gstate) e k1 k2 a cur s vs g_f e_f k_f v g_ok e_ok k_ok :
+    rinv (g_ops h) e -> nth_error (g_ops h) (fst a) = Some cur -> f_inner F (o_op cur) = None ->
+    reads (g_ops h) e (o_args cur) vs -> nth_error (o_rets cur) (snd a) = Some s -> s_val s = None ->
+    exec_op F plan sigma h e k1 a (o_op cur) vs = (AErr, g_f, e_f, k_f) ->
+    exec_op F plan nf h e k2 a (o_op cur) vs = (AOk v, g_ok, e_ok, k_ok) ->
+    mono (g_ops g_f) (g_ops g_ok).
+  Proof.
+    intros Hinv Ecur Ein Hvs Eslot Eval Hf Hk.
+    assert (Hsl : exists s0, nth_error (o_rets cur) (snd a) = Some s0 /\ s_val s0 = None) by eauto.
+    destruct (exec_op_view _ _ _ _ _ _ _ _ _ _ _ _ Ecur Hf) as (rets_f & n_f & ff & EVf).
+    destruct (exec_op_view _ _ _ _ _ _ _ _ _ _ _ _ Ecur Hk) as (rets_k & n_k & fk & EVk).
+    pose proof (nf_not_failed _ _ _ _ _ _ _ _ _ _ _ _ _ _ EVk) as ->.
+    destruct ff; [|destruct (ev_ok _ _ _ _ _ _ _ _ _ _ _ _ _ _ _ EVf eq_refl) as (_ & _ & Hr);
+                   destruct (nth_error (f_fw F (o_op cur) (pos_of (o_op cur) e) vs) (snd a)); discriminate].
+    destruct (ev_fail _ _ _ _ _ _ _ _ _ _ _ _ _ _ _ EVf eq_refl) as (Hnf & _).
+    destruct (ev_ok _ _ _ _ _ _ _ _ _ _ _ _ _ _ _ EVk eq_refl) as (Hnk & _).
+    intros b t x Hb Hx.
+    rewrite (ae_slot _ _ _ _ _ _ _ _ _ _ _ _ _ _ _ Ecur EVf) in Hb. rewrite (ae_slot _ _ _ _ _ _ _ _ _ _ _ _ _ _ _ Ecur EVk).
+    destruct (Nat.eqb (fst b) (fst a)); [|eauto].
+    destruct (Nat.lt_ge_cases (snd b) n_f) as [Hlt|Hge].
+    - destruct (ev_new _ _ _ _ _ _ _ _ _ _ _ _ _ _ _ EVf _ Hlt) as (s1 & v1 & A1 & A2 & A3).
+      destruct (ev_new _ _ _ _ _ _ _ _ _ _ _ _ _ _ _ EVk (snd b)) as (s2 & v2 & B1 & B2 & B3); [lia|].
+      rewrite A3 in Hb. injection Hb as <-. simpl in Hx. rewrite B3. eexists. split; [reflexivity|]. simpl. congruence.
+    - rewrite (ev_old _ _ _ _ _ _ _ _ _ _ _ _ _ _ _ EVf _ Hge) in Hb.
+      destruct (Nat.lt_ge_cases (snd b) n_k) as [Hlt|Hge2].
+      + destruct (ev_new _ _ _ _ _ _ _ _ _ _ _ _ _ _ _ EVk _ Hlt) as (s2 & v2 & B1 & B2 & B3). rewrite B3. eexists. split; [reflexivity|]. simpl.
+        rewrite Hb in B1. injection B1 as <-.
+        destruct (ae_old_rc _ _ _ _ _ _ Hinv Ecur eq_refl Hvs Hsl _ _ _ Hb Hx) as (_ & H4). congruence.
+      + rewrite (ev_old _ _ _ _ _ _ _ _ _ _ _ _ _ _ _ EVk _ Hge2). eauto.
+  Qed.
+
+  Definition prefix_stmt sigma (fuel : nat) : Prop :=
+    forall (g : gstate) e k k2 a g_f e_f k_f v g_ok e_ok k_ok, rinv (g_ops g) e ->
+      fwdA F plan sigma fuel g e k a = (AErr, g_f, e_f, k_f) ->
+      fwdA F plan nf fuel g e k2 a = (AOk v, g_ok, e_ok, k_ok) -> mono (g_ops g_f) (g_ops g_ok).
+
+  Lemma prefix_go sigma fu (IH : prefix_stmt sigma fu) : forall l (g : gstate) e k k2 n g_f e_f k_f vs h_ok e_ok k_ok,
+    rinv (g_ops g) e -> Forall (fun x => fst x < n) l ->
+    goA F plan sigma fu l g e k = (AErr, g_f, e_f, k_f) ->
+    goA F plan nf fu l g e k2 = (AOk vs, h_ok, e_ok, k_ok) -> mono (g_ops g_f) (g_ops h_ok).
+  Proof.
+    induction l as [|x l IHl]; intros g e k k2 n g_f e_f k_f vs h_ok e_ok k_ok Hinv Hl Hf Hk; [simpl in Hf; discriminate|].
+    inversion Hl as [|? ? Hx Hl']; subst. cbn [goA] in Hf, Hk. fold (goA F plan sigma fu) in Hf. fold (goA F plan nf fu) in Hk.
+    destruct (fwdA F plan nf fu g e k2 x) as [[[rk gk] ek] kk] eqn:Xk. destruct rk as [vx| |]; try discriminate.
+    destruct (goA F plan nf fu l gk ek kk) as [[[rlk glk] elk] klk] eqn:Lk. destruct rlk as [vl| |]; try discriminate.
+    injection Hk as <- <- <- <-.
+    destruct (fwdR_spec _ _ _ _ _ _ _ _ _ _ Hinv Xk) as ((_ & _ & _ & _ & _ & Ik & _) & _).
+    destruct (fwdA F plan sigma fu g e k x) as [[[rf gf] ef] kf] eqn:Xf. destruct rf as [vf| |]; try discriminate.
+    - destruct (ok_indep _ _ _ _ _ k2 _ _ _ _ _ Xf) as (kk' & Xf'). rewrite Xk in Xf'. injection Xf' as <- <- <- <-.
+      destruct (goA F plan sigma fu l gk ek kf) as [[[rlf glf] elf] klf] eqn:Lf. destruct rlf as [vlf| |]; try discriminate.
+      injection Hf as <- <- <-. exact (IHl _ _ _ _ n _ _ _ _ _ _ _ Ik Hl' Lf Lk).
+    - injection Hf as <- <- <-. eapply mono_trans; [exact (IH _ _ _ _ _ _ _ _ _ _ _ _ Hinv Xf Xk)|].
+      destruct (goR_spec nf fu (fwdR_spec nf fu) _ _ _ _ n _ _ _ _ Ik Hl' Lk) as ((_ & _ & _ & _ & M & _) & _). exact M.
+  Qed.
+
+  Theorem prefix_fwd sigma fuel : prefix_stmt sigma fuel.
+  Proof.
+    induction fuel as [|fu IH]; intros g e k k2 a g_f e_f k_f v g_ok e_ok k_ok Hinv Hf Hk; [discriminate|].
+    rewrite fwdA_unf in Hf, Hk.
+    destruct (nth_error (g_ops g) (fst a)) as [cur|] eqn:Ecur; [|discriminate].
+    destruct (f_inner F (o_op cur)) as [p|] eqn:Ein; [discriminate|].
+    destruct (nth_error (o_rets cur) (snd a)) as [s|] eqn:Eslot; [|discriminate].
+    destruct (s_val s) as [v0|] eqn:Eval; [discriminate|].
+    pose proof Hinv as (Hwf & _).
+    assert (Hla : Forall (fun x => fst x < fst a) (o_args cur)).
+    { eapply Forall_impl; [|exact (Hwf _ _ Ecur)]. cbv beta. intros x (Hx & _). exact Hx. }
+    destruct (goA F plan nf fu (o_args cur) g e k2) as [[[rk hk] ek] kk] eqn:Gk. destruct rk as [vs| |]; try discriminate.
+    destruct (goR_spec nf fu (fwdR_spec nf fu) _ _ _ _ _ _ _ _ _ Hinv Hla Gk) as ((_ & _ & _ & _ & _ & Ik & Frk) & Rdk).
+    assert (Ecurk : nth_error (g_ops hk) (fst a) = Some cur) by (rewrite Frk by lia; exact Ecur).
+    destruct (goA F plan sigma fu (o_args cur) g e k) as [[[rf hf] ef] kf] eqn:Gf. destruct rf as [vsf| |]; try discriminate.
+    - destruct (goA_ok_indep _ _ _ _ _ _ k2 _ _ _ _ Gf) as (kk' & Gf'). rewrite Gk in Gf'. injection Gf' as <- <- <- <-.
+      eapply exec_prefix; eauto; apply Rdk; reflexivity.
+    - injection Hf as <- <- <-. eapply mono_trans; [exact (prefix_go sigma fu IH _ _ _ _ _ _ _ _ _ _ _ _ _ Hinv Hla Gf Gk)|].
+      destruct (exec_rpost nf hk ek kk a cur vs _ _ _ _ Ik Ecurk Ein (Rdk vs eq_refl) (ex_intro _ s (conj Eslot Eval)) Hk) as ((_ & _ & _ & _ & M & _) & _).
+      exact M.
+  Qed.
+
+  (* every value visible after the failed call is, slot for slot, a value of the never-failing run *)
+  Theorem alloc_failure_prefix_random sigma (g : gstate) e k a g_f e_f k_f v g_ok e_ok :
+    rinv (g_ops g) e ->
+    forwardA F plan sigma g e k a = (AErr, g_f, e_f, k_f) -> forward F g e a = Some (v, g_ok, e_ok) ->
+    mono (g_ops g_f) (g_ops g_ok).
+  Proof.
+    intros Hinv Hf Hok. unfold forwardA in Hf. unfold forward in Hok.
+    destruct (get_slot g a) as [s0|] eqn:Es; [|discriminate].
+    pose proof (fwd_of_fwdA F plan nf (fun _ => eq_refl) (S (fst a)) g e 0 a) as Hnf.
+    destruct (fwdA F plan nf (S (fst a)) g e 0 a) as [[[r g'] e'] k'] eqn:Enf.
+    destruct r as [v'| |]; [|destruct Hnf|congruence]. rewrite Hok in Hnf. injection Hnf as <- <- <-.
+    exact (prefix_fwd sigma _ _ _ _ _ _ _ _ _ _ _ _ _ Hinv Hf Enf).
+  Qed.
 End AllocRandom.
